@@ -150,6 +150,47 @@ impl FrequencyCounter {
     }
 }
 
+#[cfg(feature = "cached_verif")]
+impl FrequencyCounter {
+    pub(crate) fn verif_state(&self) -> ([u64; ROWS], u64, Vec<Vec<u8>>) {
+        (self.seeds, self.total_counters, self.matrix.iter().map(|row| row.0.clone()).collect())
+    }
+}
+
+#[cfg(feature = "cached_verif")]
+/// A bare sketch row, for differential checks of the packed 4-bit counters.
+pub struct VerifRow(Row);
+
+#[cfg(feature = "cached_verif")]
+impl VerifRow {
+    pub fn new(bytes: Vec<u8>) -> Self { VerifRow(Row(bytes)) }
+    pub fn increment_at(&mut self, position: u64) { self.0.increment_at(position) }
+    pub fn get_at(&self, position: u64) -> FrequencyEstimate { self.0.get_at(position) }
+    pub fn half_counters(&mut self) { self.0.half_counters() }
+    pub fn clear(&mut self) { self.0.clear() }
+    pub fn bytes(&self) -> Vec<u8> { self.0.0.clone() }
+}
+
+#[cfg(feature = "cached_verif")]
+pub fn verif_next_power_2(counters: TotalCounters) -> u64 { FrequencyCounter::next_power_2(counters) }
+
+#[cfg(feature = "cached_verif")]
+/// A bare `FrequencyCounter` with chosen seeds.
+pub struct VerifFrequencyCounter(FrequencyCounter);
+
+#[cfg(feature = "cached_verif")]
+impl VerifFrequencyCounter {
+    pub fn new(counters: TotalCounters, seeds: [u64; ROWS]) -> Self {
+        let mut counter = FrequencyCounter::new(counters);
+        counter.seeds = seeds;
+        VerifFrequencyCounter(counter)
+    }
+    pub fn increment(&mut self, key_hash: KeyHash) { self.0.increment(key_hash) }
+    pub fn estimate(&self, key_hash: KeyHash) -> FrequencyEstimate { self.0.estimate(key_hash) }
+    pub fn reset(&mut self) { self.0.reset() }
+    pub fn state(&self) -> ([u64; ROWS], u64, Vec<Vec<u8>>) { self.0.verif_state() }
+}
+
 #[cfg(test)]
 mod tests {
     use crate::cache::lfu::frequency_counter::{FrequencyCounter, MAX_VALUE_LOWER_FOUR_BITS, Row};
